@@ -37,5 +37,26 @@ WITNESSES = [   # inside the signatures of the listed known findings: only confi
 def oracle(ctx, budget=1, replay=None, hints=None):
     kw, styles = _kw()
     acc = (lambda p: p['style'] in styles) if styles else None
-    return FL.oracle(ctx, PID, [O.check_C01], kw, 150 * budget, accept=acc, replay=replay,
-                     extra_progs=[FL.corpus_prog(w) for w in WITNESSES])
+    r = FL.oracle(ctx, PID, [O.check_C01], kw, 150 * budget, accept=acc, replay=replay,
+                  extra_progs=[FL.corpus_prog(w) for w in WITNESSES])
+    # through the plugin object, as OctoPrint drives it: exclusion switched off and on again by the file (whichever of the configured
+    # spellings it uses, moves made in between); from then on nothing may move into the region
+    import pluginoracles as PO, implplugin as IP
+    reg = dict(type='RectangularRegion', id='a1', x1=10.0, y1=10.0, x2=20.0, y2=20.0)
+    for _ in range(12 * budget):
+        st = PS.rnd_settings(ctx.rng)
+        st['atc'] = ctx.rng.choice([PS.DEFAULT_ATC, PS.DEFAULT_ATC + [('Purge', None, 'disable_exclusion')], [PS.DEFAULT_ATC[1], PS.DEFAULT_ATC[0]],
+                                   [('Other', None, 'disable_exclusion')] + PS.DEFAULT_ATC])
+        off, on = ctx.rng.choice(['@ExcludeRegion off', '@ExcludeRegion disable']), ctx.rng.choice(['@ExcludeRegion on', '@ExcludeRegion enable'])
+        mid = ctx.rng.choice([[], [('cmd', 'G1 X40 Y5 E1.2')], [('cmd', 'G91'), ('cmd', 'G1 X10 Y0'), ('cmd', 'G90')], [('cmd', 'G1 X15 Y15 E1.5'), ('cmd', 'G1 X5 Y40 E2')]])
+        evs = [('api', 'addExcludeRegion', reg, False), ('event', 'PRINT_STARTED'), ('cmd', 'G28'), ('cmd', 'G1 X5 Y5 Z0.3 E1 F3000'), ('at', off, False)] + mid + [('at', on, False)]
+        inside = [('cmd', ctx.rng.choice(['G1 X15 Y15 E3', 'G0 X12 Y18', 'G1 X15 Y15'])), ('cmd', 'G1 X16 Y14 E3.5'), ('cmd', 'G1 Z0.6')]
+        pl = IP.new_plugin(**PS.Run.settings_dict(st))
+        r['evaluations'] += 1
+        for k, ev in enumerate(evs + inside):
+            res, _msgs = PO.drive(pl, ev, st)
+            if k >= len(evs) and not (isinstance(res, (list, tuple)) and not any(isinstance(c, str) and c.startswith(('G0', 'G1')) and ('X' in c or 'Y' in c or 'Z' in c) for c in res)):
+                r['failures'].append(dict(what='after %r ... %r the move %r into / inside the region was answered with %r: it reaches the printer' % (off, on, ev[1], res),
+                                          signature='C01:plugin-reenabled', step=k, case=dict(settings=dict((kk, str(v)) for kk, v in st.items()), events=[list(map(str, e)) for e in (evs + inside)[:k + 1]])))
+                break
+    return r
